@@ -535,6 +535,39 @@ func (fr *Frame) havocLoc(env *Env, loc Expr, st *State) {
 				return
 			case "$allof":
 				name := l.Args[0].(*EIdent).Name
+				if !strings.HasPrefix(name, "$") {
+					// all(Type.field): that field of every object (cells of other shapes in the same heap component
+					// are framed)
+					i := strings.LastIndex(name, ".")
+					if i <= 0 {
+						g.fail("modifies all(%s): want all($ghost) or all(Type.field)", name)
+					}
+					ty := g.W.resolveType(env.pkg, name[:i], g)
+					stt, ok := isStruct(ty.G)
+					if !ok {
+						g.fail("modifies all(%s): %s is not a struct type", name, name[:i])
+					}
+					idx := -1
+					for k := 0; k < stt.NumFields(); k++ {
+						if stt.Field(k).Name() == name[i+1:] {
+							idx = k
+						}
+					}
+					if idx < 0 {
+						g.fail("modifies all(%s): no such field", name)
+					}
+					ft := stt.Field(idx).Type()
+					if _, isS := isStruct(ft); isS {
+						g.fail("modifies all(%s): struct-typed field", name)
+					}
+					key, es := g.heapKeyT(ft), g.sortOf(ft)
+					old := g.heap(st, key, es)
+					nh := g.sc.Fresh(key, old.Sort)
+					g.sc.Assume(fmt.Sprintf("(forall ((r Ref)) (! (or (and ((_ is Fld) r) (= (fid r) %d)) (= (select %s r) (select %s r))) :pattern ((select %s r))))", idx, nh.S, old.S, nh.S))
+					st.heaps[key] = nh
+					g.logWholeWrite(key, es, "")
+					return
+				}
 				key, es, _ := g.ghostField(name)
 				old := g.heap(st, key, es)
 				nh := g.sc.Fresh(key, old.Sort)
